@@ -222,11 +222,8 @@ fn walk(roots: Vec<Value>) -> (Vec<u32>, Vec<u32>) {
                 let o = unsafe { &*(addr as *const ArrayObject) };
                 work.extend(o.data.iter().copied());
             }
-            ObjectKind::Channel => {
-                let o = unsafe { &*(addr as *const ChannelObject) };
-                let q = o.data.lock().unwrap();
-                work.extend(q.iter().copied());
-            }
+            // channel queues hold owned copies outside every heap
+            ObjectKind::Channel => {}
         }
     }
     (reach, bad)
